@@ -1486,6 +1486,9 @@ class ContactHandler(Messenger, dbus.service.Object):
         :rtype: bool
         '''
         self._process_queue_pend = None
+        if self.get_app_socket() is None:
+            # connection already closed, nothing can be sent
+            return False
         self._logger.debug('Processing queue of %d items',
                            len(self._tx_pend_start))
 
